@@ -2,7 +2,7 @@
 
 Specification: spec/Routing.tla (Place, Holds, Eval, MustRoute; I-level Prune), Routing_gen.tla, RoutingRules.tla.
 Binding: G.  TLC enumerates rule instances x condition trees with MustRoute; each case is rendered to SQL
-(SELECT / UPDATE / DELETE WHERE, linked table, JOIN ON) and planned by the real plan.BuildPlan over a real
+(SELECT / UPDATE / DELETE WHERE, linked table, JOIN ON, join with a global table) and planned by the real plan.BuildPlan over a real
 router.NewRouter; a returned plan whose table set misses a MustRoute table is a violation.
 """
 import json
@@ -29,7 +29,7 @@ MANIFEST = {
                   "small non-negative integers / a calendar of three instants per day; string-typed hash keys, unix-timestamp keys of "
                   "calendar rules (time-zone dependent) and NULL literals are not enumerated. MustRoute is computed over a finite key "
                   "universe, i.e. it under-approximates the true must-set (no false alarm, possible misses between universe keys). "
-                  "The literal spelling (quoted number, date with or without time, operand order, qualifiers, parentheses) is chosen "
+                  "In the forms that join a global table the I-level pruning model is not compared (it has no global table). The literal spelling (quoted number, date with or without time, operand order, qualifiers, parentheses) is chosen "
                   "per case from the seed. LEFT/RIGHT JOIN, subqueries and UNION are not rendered.",
     "technique": "TLA+ spec + TLC exhaustive enumeration of rule x condition-tree cases with the specification's MustRoute; cases "
                  "replayed on the real planner; design-level check of the pruning algebra",
@@ -52,6 +52,9 @@ def decorate(lines, rng, thorough):
             c["forms"] = list(rt.FORMS) if thorough else ["select", others[k % len(others)], others[(k + 3) % len(others)]]
         else:
             c["forms"] = ["select", others[k % len(others)]]
+        if '"col": "o"' in json.dumps(c["tree"]):
+            # a predicate on the other column: also as a predicate on the column of a joined GLOBAL table
+            c["forms"] = c["forms"] + rt.GJOIN_FORMS
         k += 1
 
 
